@@ -455,9 +455,17 @@ func (api *HTTP) session(r *http.Request, sessionId string) (robust.Id, error) {
 
 func (api *HTTP) sessionOrProxy(w http.ResponseWriter, r *http.Request, sessionId string) (robust.Id, error) {
 	sessionid, err := api.session(r, sessionId)
-	if err == ircserver.ErrSessionNotYetSeen && api.raftNode.State() != raft.Leader {
-		// The session might exist on the leader, so we must proxy.
-		api.maybeProxyToLeader(w, r, r.Body)
+	if err == ircserver.ErrSessionNotYetSeen {
+		if api.raftNode.State() != raft.Leader {
+			// The session might exist on the leader, so we must proxy.
+			api.maybeProxyToLeader(w, r, r.Body)
+			return sessionid, err
+		}
+		// A leader which was just elected (e.g. after all nodes were
+		// restarted) might not have applied its log yet, so the session
+		// might exist. Signal a temporary error: 404 makes clients give up
+		// on their session.
+		http.Error(w, err.Error(), http.StatusInternalServerError)
 		return sessionid, err
 	}
 
